@@ -308,4 +308,995 @@ theorem inv_step {t : Nat} {c c' : Config} (hs : StepRel t c c') (i : Inv c) : I
         · simp at h2; subst h2; simp at p2
         · exact i.fl_distinct t1 t2 th1 th2 o1 o2 h i1 i2 h1 h2 p1 p2
 
+
+/-- timing and bookkeeping invariant: how `linLog`, `hist` and the pending states relate -/
+structure Timing (c : Config) : Prop where
+  lin_lt : ∀ l ∈ c.linLog, l.lin < c.now
+  hist_times : ∀ r ∈ c.hist, r.inv ≤ r.lin ∧ r.lin ≤ r.res ∧ r.res < c.now
+  hist_in_log : ∀ r ∈ c.hist, r.toLin ∈ c.linLog
+  pend_snap : ∀ (t : Nat) (th : Thread) (k : GetKind) (h : Nat) (s : Option Obj) (i : Nat),
+    c.threads[t]? = some th → th.pend = .snap k h s i → (⟨t, .get k h, i, useSnap k s⟩ : Lin) ∈ c.linLog
+  pend_creating : ∀ (t : Nat) (th : Thread) (o : Obj) (h i : Nat),
+    c.threads[t]? = some th → th.pend = .creating o h i → i < c.now
+  sorted : c.linLog.Pairwise (fun a b => b.lin < a.lin)
+  log_created : ∀ l ∈ c.linLog, ∀ o, l.op = .create o → ∃ h, l.result = .handle h ∧ h ∈ createdHandles c.hist
+  log_handle : ∀ l ∈ c.linLog, ∀ h, l.result = .handle h → ∃ o, l.op = .create o
+
+theorem timing_init (progs : List (List Op)) : Timing (initCfg progs) := by
+  refine ⟨by simp [initCfg], by simp [initCfg], by simp [initCfg], ?_, ?_, by simp [initCfg], by simp [initCfg], by simp [initCfg]⟩
+  · intro t th k h s i hth hp
+    simp only [initCfg, List.getElem?_map] at hth
+    cases hq : progs[t]? <;> simp [hq] at hth
+    subst hth; simp at hp
+  · intro t th o h i hth hp
+    simp only [initCfg, List.getElem?_map] at hth
+    cases hq : progs[t]? <;> simp [hq] at hth
+    subst hth; simp at hp
+
+theorem timing_step {t : Nat} {c c' : Config} (hs : StepRel t c c') (i : Timing c) : Timing c' := by
+  have hlt : ∀ l ∈ c.linLog, l.lin < c.now + 1 := fun l hl => Nat.lt_succ_of_lt (i.lin_lt l hl)
+  have hht : ∀ r ∈ c.hist, r.inv ≤ r.lin ∧ r.lin ≤ r.res ∧ r.res < c.now + 1 := fun r hr => by
+    have := i.hist_times r hr; omega
+  cases hs with
+  | skip hn => exact ⟨hlt, hht, i.hist_in_log, i.pend_snap, fun t th o h j a b => Nat.lt_succ_of_lt (i.pend_creating t th o h j a b),
+      i.sorted, i.log_created, i.log_handle⟩
+  | fin th hth hp hprog =>
+    refine ⟨hlt, hht, i.hist_in_log, ?_, ?_, i.sorted, i.log_created, i.log_handle⟩
+    · intro t' th' k h s j hth' hp'
+      simp only [get_set hth] at hth'
+      split at hth'
+      · simp at hth'; subst hth'; simp [hp] at hp'
+      · exact i.pend_snap t' th' k h s j hth' hp'
+    · intro t' th' o h j hth' hp'
+      simp only [get_set hth] at hth'
+      split at hth'
+      · simp at hth'; subst hth'; simp [hp] at hp'
+      · exact Nat.lt_succ_of_lt (i.pend_creating t' th' o h j hth' hp')
+  | alloc th o rest hth hp hprog =>
+    refine ⟨hlt, hht, i.hist_in_log, ?_, ?_, i.sorted, i.log_created, i.log_handle⟩
+    · intro t' th' k h s j hth' hp'
+      simp only [get_set hth] at hth'
+      split at hth'
+      · simp at hth'; subst hth'; simp at hp'
+      · exact i.pend_snap t' th' k h s j hth' hp'
+    · intro t' th' o h j hth' hp'
+      simp only [get_set hth] at hth'
+      split at hth'
+      · simp at hth'; subst hth'; simp at hp'; simp only; omega
+      · exact Nat.lt_succ_of_lt (i.pend_creating t' th' o h j hth' hp')
+  | insert th o h j hth hp =>
+    have hj := i.pend_creating t th o h j hth hp
+    refine ⟨?_, ?_, ?_, ?_, ?_, ?_, ?_, ?_⟩
+    · intro l hl; rcases List.mem_cons.mp hl with rfl | hl
+      · simp
+      · exact hlt l hl
+    · intro r hr; rcases List.mem_cons.mp hr with rfl | hr
+      · simp only; omega
+      · exact hht r hr
+    · intro r hr; rcases List.mem_cons.mp hr with rfl | hr
+      · simp [Rec.toLin]
+      · exact List.mem_cons_of_mem _ (i.hist_in_log r hr)
+    · intro t' th' k h' s j' hth' hp'
+      simp only [get_set hth] at hth'
+      split at hth'
+      · simp at hth'; subst hth'; simp at hp'
+      · exact List.mem_cons_of_mem _ (i.pend_snap t' th' k h' s j' hth' hp')
+    · intro t' th' o' h' j' hth' hp'
+      simp only [get_set hth] at hth'
+      split at hth'
+      · simp at hth'; subst hth'; simp at hp'
+      · exact Nat.lt_succ_of_lt (i.pend_creating t' th' o' h' j' hth' hp')
+    · exact List.pairwise_cons.mpr ⟨fun l hl => i.lin_lt l hl, i.sorted⟩
+    · intro l hl o' ho
+      have hch : createdHandles (⟨t, .create o, j, c.now, c.now, .handle h⟩ :: c.hist) = h :: createdHandles c.hist := by
+        simp [createdHandles]
+      rw [hch]
+      rcases List.mem_cons.mp hl with rfl | hl
+      · exact ⟨h, rfl, by simp⟩
+      · obtain ⟨x, hx1, hx2⟩ := i.log_created l hl o' ho
+        exact ⟨x, hx1, List.mem_cons_of_mem _ hx2⟩
+    · intro l hl x hx
+      rcases List.mem_cons.mp hl with rfl | hl
+      · exact ⟨o, rfl⟩
+      · exact i.log_handle l hl x hx
+  | snap th k h rest hth hp hprog =>
+    refine ⟨?_, hht, fun r hr => List.mem_cons_of_mem _ (i.hist_in_log r hr), ?_, ?_, ?_, ?_, ?_⟩
+    · intro l hl; rcases List.mem_cons.mp hl with rfl | hl
+      · simp
+      · exact hlt l hl
+    · intro t' th' k' h' s j' hth' hp'
+      simp only [get_set hth] at hth'
+      split at hth'
+      · simp at hth'; subst hth'; simp at hp'
+        obtain ⟨rfl, rfl, rfl, rfl⟩ := hp'
+        rename_i e; subst e; simp
+      · exact List.mem_cons_of_mem _ (i.pend_snap t' th' k' h' s j' hth' hp')
+    · intro t' th' o' h' j' hth' hp'
+      simp only [get_set hth] at hth'
+      split at hth'
+      · simp at hth'; subst hth'; simp at hp'
+      · exact Nat.lt_succ_of_lt (i.pend_creating t' th' o' h' j' hth' hp')
+    · exact List.pairwise_cons.mpr ⟨fun l hl => i.lin_lt l hl, i.sorted⟩
+    · intro l hl o' ho
+      rcases List.mem_cons.mp hl with rfl | hl
+      · simp at ho
+      · exact i.log_created l hl o' ho
+    · intro l hl x hx
+      rcases List.mem_cons.mp hl with rfl | hl
+      · exact absurd hx (useSnap_ne_handle _ _ _)
+      · exact i.log_handle l hl x hx
+  | use th k h s j hth hp =>
+    have hin := i.pend_snap t th k h s j hth hp
+    have hj := i.lin_lt _ hin
+    have hch : createdHandles (⟨t, .get k h, j, j, c.now, useSnap k s⟩ :: c.hist) = createdHandles c.hist :=
+      createdHandles_cons_of_ne _ _ (fun x => useSnap_ne_handle k s x)
+    refine ⟨hlt, ?_, ?_, ?_, ?_, i.sorted, by rw [hch]; exact i.log_created, i.log_handle⟩
+    · intro r hr; rcases List.mem_cons.mp hr with rfl | hr
+      · simp only at hj ⊢; omega
+      · exact hht r hr
+    · intro r hr; rcases List.mem_cons.mp hr with rfl | hr
+      · exact hin
+      · exact i.hist_in_log r hr
+    · intro t' th' k' h' s' j' hth' hp'
+      simp only [get_set hth] at hth'
+      split at hth'
+      · simp at hth'; subst hth'; simp at hp'
+      · exact i.pend_snap t' th' k' h' s' j' hth' hp'
+    · intro t' th' o' h' j' hth' hp'
+      simp only [get_set hth] at hth'
+      split at hth'
+      · simp at hth'; subst hth'; simp at hp'
+      · exact Nat.lt_succ_of_lt (i.pend_creating t' th' o' h' j' hth' hp')
+  | free th h rest hth hp hprog =>
+    have hch : createdHandles (⟨t, .free h, c.now, c.now, c.now, .unit⟩ :: c.hist) = createdHandles c.hist := by
+      simp [createdHandles]
+    refine ⟨?_, ?_, ?_, ?_, ?_, ?_, ?_, ?_⟩
+    · intro l hl; rcases List.mem_cons.mp hl with rfl | hl
+      · simp
+      · exact hlt l hl
+    · intro r hr; rcases List.mem_cons.mp hr with rfl | hr
+      · simp
+      · exact hht r hr
+    · intro r hr; rcases List.mem_cons.mp hr with rfl | hr
+      · simp [Rec.toLin]
+      · exact List.mem_cons_of_mem _ (i.hist_in_log r hr)
+    · intro t' th' k h' s j' hth' hp'
+      simp only [get_set hth] at hth'
+      split at hth'
+      · simp at hth'; subst hth'; simp at hp'
+      · exact List.mem_cons_of_mem _ (i.pend_snap t' th' k h' s j' hth' hp')
+    · intro t' th' o' h' j' hth' hp'
+      simp only [get_set hth] at hth'
+      split at hth'
+      · simp at hth'; subst hth'; simp at hp'
+      · exact Nat.lt_succ_of_lt (i.pend_creating t' th' o' h' j' hth' hp')
+    · exact List.pairwise_cons.mpr ⟨fun l hl => i.lin_lt l hl, i.sorted⟩
+    · intro l hl o' ho
+      rw [hch]
+      rcases List.mem_cons.mp hl with rfl | hl
+      · simp at ho
+      · exact i.log_created l hl o' ho
+    · intro l hl x hx
+      rcases List.mem_cons.mp hl with rfl | hl
+      · simp at hx
+      · exact i.log_handle l hl x hx
+
+
+/-- the linearization log replays on the sequential spec and ends in the concrete map -/
+structure SpecInv (c : Config) : Prop where
+  replay : ∃ s, specOf c.linLog = some s ∧ (∀ x, s.map x = mapGet c.map x) ∧
+    (∀ x ∈ s.issued, x ∈ createdHandles c.hist)
+
+theorem specInv_init (progs : List (List Op)) : SpecInv (initCfg progs) :=
+  ⟨⟨Spec.empty, rfl, by simp [Spec.empty, initCfg, mapGet], by simp [Spec.empty]⟩⟩
+
+theorem specInv_step {t : Nat} {c c' : Config} (hs : StepRel t c c') (i1 : Inv c) (i : SpecInv c) :
+    SpecInv c' := by
+  obtain ⟨s, hs1, hs2, hs3⟩ := i.replay
+  cases hs with
+  | skip hn => exact ⟨⟨s, hs1, hs2, hs3⟩⟩
+  | fin th hth hp hprog => exact ⟨⟨s, hs1, hs2, hs3⟩⟩
+  | alloc th o rest hth hp hprog => exact ⟨⟨s, hs1, hs2, hs3⟩⟩
+  | insert th o h j hth hp =>
+    have hfl := i1.fl t th o h j hth hp
+    have hni : h ∉ s.issued := fun hm => hfl.2.2 (hs3 h hm)
+    refine ⟨⟨⟨fun x => if x = h then some o else s.map x, h :: s.issued⟩, ?_, ?_, ?_⟩⟩
+    · simp [specOf, hs1, specStep, hfl.2.1, hni]
+    · intro x; simp only [mapGet_insert, hs2]
+    · intro x hx
+      have hch : createdHandles (⟨t, .create o, j, c.now, c.now, .handle h⟩ :: c.hist) = h :: createdHandles c.hist := by
+        simp [createdHandles]
+      rw [hch]
+      rcases List.mem_cons.mp hx with rfl | hx
+      · simp
+      · exact List.mem_cons_of_mem _ (hs3 x hx)
+  | snap th k h rest hth hp hprog =>
+    refine ⟨⟨s, ?_, hs2, hs3⟩⟩
+    simp [specOf, hs1, specStep, hs2]
+  | use th k h s' j hth hp =>
+    refine ⟨⟨s, hs1, hs2, ?_⟩⟩
+    rw [createdHandles_cons_of_ne _ _ (fun x => useSnap_ne_handle k s' x)]; exact hs3
+  | free th h rest hth hp hprog =>
+    refine ⟨⟨⟨fun x => if x = h then none else s.map x, s.issued⟩, ?_, ?_, ?_⟩⟩
+    · simp [specOf, hs1, specStep]
+    · intro x; simp only [mapGet_remove, hs2]
+    · intro x hx
+      have hch : createdHandles (⟨t, .free h, c.now, c.now, c.now, .unit⟩ :: c.hist) = createdHandles c.hist := by
+        simp [createdHandles]
+      rw [hch]; exact hs3 x hx
+
+
+/-- life of one handle `h`, created by log entry `rc` with object `o`: `q = none` while it has not
+been removed since its insert, `q = some Q` when the first remove after the insert happened at
+step `Q`. Every locked `get` of `h` delivered `o` exactly inside `(rc.lin, Q)` and
+`errInvalid` outside. -/
+structure Window (log : List Lin) (map : Map) (rc : Lin) (o : Obj) (h : Nat) (q : Option Nat) : Prop where
+  link : mapGet map h = match q with | none => some o | some _ => none
+  qfree : ∀ Q, q = some Q → rc.lin < Q ∧ ∃ f ∈ log, f.op = .free h ∧ f.lin = Q
+  frees : ∀ f ∈ log, f.op = .free h → f.lin < rc.lin ∨ ∃ Q, q = some Q ∧ Q ≤ f.lin
+  gets : ∀ r ∈ log, ∀ k, r.op = .get k h →
+    (r.result = useSnap k (some o) ∧ rc.lin < r.lin ∧ ∀ Q, q = some Q → r.lin < Q) ∨
+    (r.result = .errInvalid ∧ (r.lin < rc.lin ∨ ∃ Q, q = some Q ∧ Q < r.lin))
+
+structure WinInv (c : Config) : Prop where
+  /-- every created handle has a window -/
+  win : ∀ rc ∈ c.linLog, ∀ o h, rc.op = .create o → rc.result = .handle h →
+    ∃ q, Window c.linLog c.map rc o h q
+  /-- a handle that no create has returned is absent and every `get` of it failed -/
+  never : ∀ h, h ∉ createdHandles c.hist → mapGet c.map h = none ∧
+    ∀ r ∈ c.linLog, ∀ k, r.op = .get k h → r.result = .errInvalid
+
+theorem winInv_init (progs : List (List Op)) : WinInv (initCfg progs) :=
+  ⟨by simp [initCfg], fun h _ => ⟨by simp [initCfg, mapGet], by simp [initCfg]⟩⟩
+
+/-- a log entry that is neither a `free` nor a `get` of `h`, added on top, keeps the window -/
+theorem Window.cons_other {log : List Lin} {map map' : Map} {rc : Lin} {o : Obj} {h : Nat} {q : Option Nat}
+    (w : Window log map rc o h q) (l : Lin) (hmap : mapGet map' h = mapGet map h)
+    (hf : l.op ≠ .free h) (hg : ∀ k, l.op ≠ .get k h) : Window (l :: log) map' rc o h q := by
+  refine ⟨by rw [hmap]; exact w.link, ?_, ?_, ?_⟩
+  · intro Q hQ
+    obtain ⟨a, f, hf1, hf2⟩ := w.qfree Q hQ
+    exact ⟨a, f, List.mem_cons_of_mem _ hf1, hf2⟩
+  · intro f hfm hfo
+    rcases List.mem_cons.mp hfm with rfl | hfm
+    · exact absurd hfo hf
+    · exact w.frees f hfm hfo
+  · intro r hr k hk
+    rcases List.mem_cons.mp hr with rfl | hr
+    · exact absurd hk (hg k)
+    · exact w.gets r hr k hk
+
+theorem winInv_step {t : Nat} {c c' : Config} (hs : StepRel t c c') (i1 : Inv c) (i2 : Timing c)
+    (i : WinInv c) : WinInv c' := by
+  cases hs with
+  | skip hn => exact ⟨i.win, i.never⟩
+  | fin th hth hp hprog => exact ⟨i.win, i.never⟩
+  | alloc th o rest hth hp hprog => exact ⟨i.win, i.never⟩
+  | use th k h s j hth hp =>
+    refine ⟨i.win, ?_⟩
+    rw [createdHandles_cons_of_ne _ _ (fun x => useSnap_ne_handle k s x)]; exact i.never
+  | insert th o h j hth hp =>
+    have hfl := i1.fl t th o h j hth hp
+    have hch : createdHandles (⟨t, .create o, j, c.now, c.now, .handle h⟩ :: c.hist) = h :: createdHandles c.hist := by
+      simp [createdHandles]
+    refine ⟨?_, ?_⟩
+    · intro rc hrc o' h' hop hres
+      rcases List.mem_cons.mp hrc with rfl | hrc
+      · simp only [Op.create.injEq, Res.handle.injEq] at hop hres
+        subst hop; subst hres
+        obtain ⟨hn1, hn2⟩ := i.never h hfl.2.2
+        refine ⟨none, ⟨by simp [mapGet_insert], by simp, ?_, ?_⟩⟩
+        · intro f hfm hfo
+          rcases List.mem_cons.mp hfm with rfl | hfm
+          · simp at hfo
+          · exact Or.inl (i2.lin_lt f hfm)
+        · intro r hr k hk
+          rcases List.mem_cons.mp hr with rfl | hr
+          · simp at hk
+          · exact Or.inr ⟨hn2 r hr k hk, Or.inl (i2.lin_lt r hr)⟩
+      · obtain ⟨q, w⟩ := i.win rc hrc o' h' hop hres
+        obtain ⟨x, hx1, hx2⟩ := i2.log_created rc hrc o' hop
+        have hne : h' ≠ h := by
+          rw [hres] at hx1; cases hx1
+          intro e; subst e; exact hfl.2.2 hx2
+        exact ⟨q, w.cons_other _ (by simp [mapGet_insert, hne]) (by simp) (by simp)⟩
+    · intro h' hh'
+      rw [hch] at hh'
+      have hne : h' ≠ h := fun e => hh' (by simp [e])
+      obtain ⟨hn1, hn2⟩ := i.never h' (fun hm => hh' (List.mem_cons_of_mem _ hm))
+      refine ⟨by simp [mapGet_insert, hne, hn1], ?_⟩
+      intro r hr k hk
+      rcases List.mem_cons.mp hr with rfl | hr
+      · simp at hk
+      · exact hn2 r hr k hk
+  | snap th k h rest hth hp hprog =>
+    refine ⟨?_, ?_⟩
+    · intro rc hrc0 o' h' hop hres
+      rcases List.mem_cons.mp hrc0 with rfl | hrc
+      · simp at hop
+      · clear hrc0
+        obtain ⟨q, w⟩ := i.win rc hrc o' h' hop hres
+        by_cases hne : h' = h
+        · subst hne
+          refine ⟨q, ⟨w.link, ?_, ?_, ?_⟩⟩
+          · intro Q hQ
+            obtain ⟨a, f, hf1, hf2⟩ := w.qfree Q hQ
+            exact ⟨a, f, List.mem_cons_of_mem _ hf1, hf2⟩
+          · intro f hfm hfo
+            rcases List.mem_cons.mp hfm with rfl | hfm
+            · simp at hfo
+            · exact w.frees f hfm hfo
+          · intro r hr k' hk'
+            rcases List.mem_cons.mp hr with rfl | hr
+            · simp only [Op.get.injEq] at hk'
+              obtain ⟨rfl, _⟩ := hk'
+              have hl := w.link
+              cases q with
+              | none =>
+                simp only at hl
+                exact Or.inl ⟨by rw [hl], i2.lin_lt rc hrc, by simp⟩
+              | some Q =>
+                simp only at hl
+                obtain ⟨_, f, hf1, _, hf3⟩ := w.qfree Q rfl
+                refine Or.inr ⟨by rw [hl]; rfl, Or.inr ⟨Q, rfl, ?_⟩⟩
+                have := i2.lin_lt f hf1; simp only; omega
+            · exact w.gets r hr k' hk'
+        · refine ⟨q, w.cons_other _ rfl (by simp) ?_⟩
+          intro k'; simp; intro _ e; exact hne e.symm
+    · intro h' hh'
+      obtain ⟨hn1, hn2⟩ := i.never h' hh'
+      refine ⟨hn1, ?_⟩
+      intro r hr k' hk'
+      rcases List.mem_cons.mp hr with rfl | hr
+      · simp only [Op.get.injEq] at hk'
+        obtain ⟨rfl, rfl⟩ := hk'
+        simp only [hn1]; rfl
+      · exact hn2 r hr k' hk'
+  | free th h rest hth hp hprog =>
+    have hch : createdHandles (⟨t, .free h, c.now, c.now, c.now, .unit⟩ :: c.hist) = createdHandles c.hist := by
+      simp [createdHandles]
+    refine ⟨?_, ?_⟩
+    · intro rc hrc0 o' h' hop hres
+      rcases List.mem_cons.mp hrc0 with rfl | hrc
+      · simp at hop
+      · clear hrc0
+        obtain ⟨q, w⟩ := i.win rc hrc o' h' hop hres
+        by_cases hne : h' = h
+        · subst hne
+          have hrcl := i2.lin_lt rc hrc
+          cases q with
+          | none =>
+            refine ⟨some c.now, ⟨by simp [mapGet_remove], ?_, ?_, ?_⟩⟩
+            · intro Q hQ; cases hQ
+              exact ⟨hrcl, _, List.mem_cons_self, rfl, rfl⟩
+            · intro f hfm hfo
+              rcases List.mem_cons.mp hfm with rfl | hfm
+              · exact Or.inr ⟨c.now, rfl, Nat.le_refl _⟩
+              · rcases w.frees f hfm hfo with h1 | ⟨Q, hQ, _⟩
+                · exact Or.inl h1
+                · cases hQ
+            · intro r hr k hk
+              rcases List.mem_cons.mp hr with rfl | hr
+              · simp at hk
+              · rcases w.gets r hr k hk with ⟨a, b, _⟩ | ⟨a, b | ⟨Q, hQ, _⟩⟩
+                · refine Or.inl ⟨a, b, ?_⟩
+                  intro Q hQ; cases hQ; exact i2.lin_lt r hr
+                · exact Or.inr ⟨a, Or.inl b⟩
+                · cases hQ
+          | some Q =>
+            obtain ⟨hQ1, f0, hf1, hf2, hf3⟩ := w.qfree Q rfl
+            have hQlt : Q < c.now := by have := i2.lin_lt f0 hf1; omega
+            refine ⟨some Q, ⟨by simp [mapGet_remove], ?_, ?_, ?_⟩⟩
+            · intro Q' hQ'; cases hQ'
+              exact ⟨hQ1, f0, List.mem_cons_of_mem _ hf1, hf2, hf3⟩
+            · intro f hfm hfo
+              rcases List.mem_cons.mp hfm with rfl | hfm
+              · exact Or.inr ⟨Q, rfl, by simp only; omega⟩
+              · exact w.frees f hfm hfo
+            · intro r hr k hk
+              rcases List.mem_cons.mp hr with rfl | hr
+              · simp at hk
+              · exact w.gets r hr k hk
+        · refine ⟨q, w.cons_other _ (by simp [mapGet_remove, hne]) ?_ (by simp)⟩
+          simp; intro e; exact hne e.symm
+    · intro h' hh'
+      rw [hch] at hh'
+      obtain ⟨hn1, hn2⟩ := i.never h' hh'
+      refine ⟨by simp [mapGet_remove, hn1], ?_⟩
+      intro r hr k hk
+      rcases List.mem_cons.mp hr with rfl | hr
+      · simp at hk
+      · exact hn2 r hr k hk
+
+
+theorem mem_createdHandles {hist : List Rec} {r : Rec} {h : Nat} (hr : r ∈ hist) (hres : r.result = .handle h) :
+    h ∈ createdHandles hist := by
+  simp only [createdHandles, List.mem_filterMap]
+  exact ⟨r, hr, by simp [hres]⟩
+
+/-- handles grow along real time: a create that responded before another was invoked got the smaller handle -/
+structure OrdInv (c : Config) : Prop where
+  hist : ∀ a ∈ c.hist, ∀ b ∈ c.hist, ∀ ha hb, a.result = .handle ha → b.result = .handle hb →
+    a.res < b.inv → ha < hb
+  fl : ∀ (t : Nat) (th : Thread) (o : Obj) (h i : Nat), c.threads[t]? = some th → th.pend = .creating o h i →
+    ∀ a ∈ c.hist, ∀ ha, a.result = .handle ha → a.res < i → ha < h
+
+theorem ordInv_init (progs : List (List Op)) : OrdInv (initCfg progs) :=
+  ⟨by simp [initCfg], by simp [initCfg]⟩
+
+theorem ordInv_step {t : Nat} {c c' : Config} (hs : StepRel t c c') (i1 : Inv c) (i2 : Timing c)
+    (i : OrdInv c) : OrdInv c' := by
+  cases hs with
+  | skip hn => exact ⟨i.hist, i.fl⟩
+  | fin th hth hp hprog =>
+    refine ⟨i.hist, ?_⟩
+    intro t' th' o h j hth' hp'
+    simp only [get_set hth] at hth'
+    split at hth'
+    · simp at hth'; subst hth'; simp [hp] at hp'
+    · exact i.fl t' th' o h j hth' hp'
+  | alloc th o rest hth hp hprog =>
+    refine ⟨i.hist, ?_⟩
+    intro t' th' o' h j hth' hp'
+    simp only [get_set hth] at hth'
+    split at hth'
+    · simp at hth'; subst hth'; simp at hp'
+      obtain ⟨_, rfl, _⟩ := hp'
+      intro a ha x hx _
+      have := (i1.ch_le x (mem_createdHandles ha hx)).1
+      omega
+    · exact i.fl t' th' o' h j hth' hp'
+  | insert th o h j hth hp =>
+    have hj := i2.pend_creating t th o h j hth hp
+    refine ⟨?_, ?_⟩
+    · intro a ha b hb xa xb hxa hxb hlt
+      rcases List.mem_cons.mp ha with rfl | ha
+      · rcases List.mem_cons.mp hb with rfl | hb
+        · simp only at hlt; omega
+        · have := i2.hist_times b hb; simp only at hlt; omega
+      · rcases List.mem_cons.mp hb with rfl | hb
+        · simp only [Res.handle.injEq] at hxb; subst hxb
+          exact i.fl t th o _ j hth hp a ha xa hxa hlt
+        · exact i.hist a ha b hb xa xb hxa hxb hlt
+    · intro t' th' o' h' j' hth' hp'
+      simp only [get_set hth] at hth'
+      split at hth'
+      · simp at hth'; subst hth'; simp at hp'
+      · intro a ha xa hxa hlt
+        rcases List.mem_cons.mp ha with rfl | ha
+        · have := i2.pend_creating t' th' o' h' j' hth' hp'; simp only at hlt; omega
+        · exact i.fl t' th' o' h' j' hth' hp' a ha xa hxa hlt
+  | snap th k h rest hth hp hprog =>
+    refine ⟨i.hist, ?_⟩
+    intro t' th' o h j hth' hp'
+    simp only [get_set hth] at hth'
+    split at hth'
+    · simp at hth'; subst hth'; simp at hp'
+    · exact i.fl t' th' o h j hth' hp'
+  | use th k h s j hth hp =>
+    refine ⟨?_, ?_⟩
+    · intro a ha b hb xa xb hxa hxb hlt
+      rcases List.mem_cons.mp ha with rfl | ha
+      · exact absurd hxa (useSnap_ne_handle _ _ _)
+      · rcases List.mem_cons.mp hb with rfl | hb
+        · exact absurd hxb (useSnap_ne_handle _ _ _)
+        · exact i.hist a ha b hb xa xb hxa hxb hlt
+    · intro t' th' o' h' j' hth' hp'
+      simp only [get_set hth] at hth'
+      split at hth'
+      · simp at hth'; subst hth'; simp at hp'
+      · intro a ha xa hxa hlt
+        rcases List.mem_cons.mp ha with rfl | ha
+        · exact absurd hxa (useSnap_ne_handle _ _ _)
+        · exact i.fl t' th' o' h' j' hth' hp' a ha xa hxa hlt
+  | free th h rest hth hp hprog =>
+    refine ⟨?_, ?_⟩
+    · intro a ha b hb xa xb hxa hxb hlt
+      rcases List.mem_cons.mp ha with rfl | ha
+      · simp at hxa
+      · rcases List.mem_cons.mp hb with rfl | hb
+        · simp at hxb
+        · exact i.hist a ha b hb xa xb hxa hxb hlt
+    · intro t' th' o' h' j' hth' hp'
+      simp only [get_set hth] at hth'
+      split at hth'
+      · simp at hth'; subst hth'; simp at hp'
+      · intro a ha xa hxa hlt
+        rcases List.mem_cons.mp ha with rfl | ha
+        · simp at hxa
+        · exact i.fl t' th' o' h' j' hth' hp' a ha xa hxa hlt
+
+
+/-- which combinations of operation, times and response a history contains -/
+structure Shape (c : Config) : Prop where
+  create : ∀ r ∈ c.hist, ∀ o, r.op = .create o → r.lin = r.res ∧ ∃ h, r.result = .handle h
+  get : ∀ r ∈ c.hist, ∀ k h, r.op = .get k h → r.inv = r.lin ∧ ∃ s, r.result = useSnap k s
+  free : ∀ r ∈ c.hist, ∀ h, r.op = .free h → r.inv = r.lin ∧ r.lin = r.res ∧ r.result = .unit
+  log_free : ∀ l ∈ c.linLog, ∀ h, l.op = .free h →
+    (⟨l.thread, .free h, l.lin, l.lin, l.lin, .unit⟩ : Rec) ∈ c.hist
+
+theorem shape_init (progs : List (List Op)) : Shape (initCfg progs) :=
+  ⟨by simp [initCfg], by simp [initCfg], by simp [initCfg], by simp [initCfg]⟩
+
+theorem shape_step {t : Nat} {c c' : Config} (hs : StepRel t c c') (i : Shape c) : Shape c' := by
+  cases hs with
+  | skip hn => exact ⟨i.create, i.get, i.free, i.log_free⟩
+  | fin th hth hp hprog => exact ⟨i.create, i.get, i.free, i.log_free⟩
+  | alloc th o rest hth hp hprog => exact ⟨i.create, i.get, i.free, i.log_free⟩
+  | insert th o h j hth hp =>
+    refine ⟨?_, ?_, ?_, ?_⟩
+    · intro r hr o' ho; rcases List.mem_cons.mp hr with rfl | hr
+      · exact ⟨rfl, h, rfl⟩
+      · exact i.create r hr o' ho
+    · intro r hr k h' ho; rcases List.mem_cons.mp hr with rfl | hr
+      · simp at ho
+      · exact i.get r hr k h' ho
+    · intro r hr h' ho; rcases List.mem_cons.mp hr with rfl | hr
+      · simp at ho
+      · exact i.free r hr h' ho
+    · intro l hl h' ho; rcases List.mem_cons.mp hl with rfl | hl
+      · simp at ho
+      · exact List.mem_cons_of_mem _ (i.log_free l hl h' ho)
+  | snap th k h rest hth hp hprog =>
+    refine ⟨i.create, i.get, i.free, ?_⟩
+    intro l hl h' ho; rcases List.mem_cons.mp hl with rfl | hl
+    · simp at ho
+    · exact i.log_free l hl h' ho
+  | use th k h s j hth hp =>
+    refine ⟨?_, ?_, ?_, ?_⟩
+    · intro r hr o' ho; rcases List.mem_cons.mp hr with rfl | hr
+      · simp at ho
+      · exact i.create r hr o' ho
+    · intro r hr k' h' ho; rcases List.mem_cons.mp hr with rfl | hr
+      · simp only [Op.get.injEq] at ho; obtain ⟨rfl, rfl⟩ := ho; exact ⟨rfl, s, rfl⟩
+      · exact i.get r hr k' h' ho
+    · intro r hr h' ho; rcases List.mem_cons.mp hr with rfl | hr
+      · simp at ho
+      · exact i.free r hr h' ho
+    · intro l hl h' ho; exact List.mem_cons_of_mem _ (i.log_free l hl h' ho)
+  | free th h rest hth hp hprog =>
+    refine ⟨?_, ?_, ?_, ?_⟩
+    · intro r hr o' ho; rcases List.mem_cons.mp hr with rfl | hr
+      · simp at ho
+      · exact i.create r hr o' ho
+    · intro r hr k' h' ho; rcases List.mem_cons.mp hr with rfl | hr
+      · simp at ho
+      · exact i.get r hr k' h' ho
+    · intro r hr h' ho; rcases List.mem_cons.mp hr with rfl | hr
+      · exact ⟨rfl, rfl, rfl⟩
+      · exact i.free r hr h' ho
+    · intro l hl h' ho; rcases List.mem_cons.mp hl with rfl | hl
+      · simp only [Op.free.injEq] at ho; subst ho; exact List.mem_cons_self
+      · exact List.mem_cons_of_mem _ (i.log_free l hl h' ho)
+
+/-- all invariants together -/
+structure AllInv (c : Config) : Prop where
+  inv : Inv c
+  timing : Timing c
+  spec : SpecInv c
+  win : WinInv c
+  ord : OrdInv c
+  shape : Shape c
+
+theorem allInv_run (progs : List (List Op)) (s : Sched) : AllInv (run s (initCfg progs)) := by
+  apply run_induction (P := AllInv)
+  · intro t c c' hs i
+    exact ⟨inv_step hs i.inv, timing_step hs i.timing, specInv_step hs i.inv i.spec,
+      winInv_step hs i.inv i.timing i.win, ordInv_step hs i.inv i.timing i.ord, shape_step hs i.shape⟩
+  · exact ⟨inv_init progs, timing_init progs, specInv_init progs, winInv_init progs, ordInv_init progs, shape_init progs⟩
+
+
+theorem useSnap_some_ne_invalid (k : GetKind) (o : Obj) : useSnap k (some o) ≠ .errInvalid := by
+  cases k <;> simp [useSnap]
+  split <;> simp
+
+/-- how the response of a `get` record and the result fields of its event relate -/
+def GetRel (k : GetKind) (res : Res) (e : Event) : Prop :=
+  (res = .errInvalid ∧ e.result = .invalid) ∨
+  (res ≠ .errInvalid ∧ e.result ≠ .invalid ∧
+    ∀ o, res = useSnap k (some o) → ∀ C : Event, C.ty = some o.ty → C.obj = some o.id → presentOk C e = true)
+
+/-- inversion of the abstraction -/
+theorem toEvent_inv {r : Rec} {e : Event} (h : r.toEvent = some e) :
+    e.inv = 2 * r.inv ∧ e.res = 2 * r.res + 1 ∧
+    ((e.op = .create ∧ ∃ o, r.op = .create o ∧ r.result = .handle e.handle ∧ e.ty = some o.ty ∧
+        e.obj = some o.id ∧ e.result = .ok) ∨
+     (e.op = .free ∧ r.op = .free e.handle ∧ r.result = .unit ∧ e.result = .ok) ∨
+     (e.isGet = true ∧ ∃ k, r.op = .get k e.handle ∧ GetRel k r.result e)) := by
+  unfold Rec.toEvent at h
+  split at h <;> simp only [Option.some.injEq, reduceCtorEq] at h <;> subst h <;>
+    refine ⟨rfl, rfl, ?_⟩
+  · rename_i o hh ho hr; exact Or.inl ⟨rfl, o, ho, hr, rfl, rfl, rfl⟩
+  · rename_i hh ho hr; exact Or.inr (Or.inl ⟨rfl, ho, hr, rfl⟩)
+  · rename_i hh o ho hr
+    refine Or.inr (Or.inr ⟨rfl, .json, ho, Or.inr ⟨by simp [hr], by simp, ?_⟩⟩)
+    intro o' ho' C h1 h2
+    simp only [hr, useSnap, Res.ok.injEq] at ho'; subst ho'
+    simp [presentOk, h1, h2]
+  · rename_i hh o ho hr
+    refine Or.inr (Or.inr ⟨rfl, .typeName, ho, Or.inr ⟨by simp [hr], by simp, ?_⟩⟩)
+    intro o' ho' C h1 h2
+    simp only [hr, useSnap, Res.ok.injEq] at ho'; subst ho'
+    simp [presentOk, h1]
+  · rename_i hh o ho hr
+    refine Or.inr (Or.inr ⟨rfl, .load, ho, Or.inr ⟨by simp [hr], by simp, ?_⟩⟩)
+    intro o' ho' C h1 h2
+    simp [presentOk]
+  · rename_i T hh o ho hr
+    refine Or.inr (Or.inr ⟨rfl, .useAs T, ho, Or.inr ⟨by simp [hr], by simp, ?_⟩⟩)
+    intro o' ho' C h1 h2
+    simp only [hr, useSnap] at ho'
+    split at ho'
+    · rename_i hT; simp [presentOk, h1, hT]
+    · cases ho'
+  · rename_i T hh ho hr
+    refine Or.inr (Or.inr ⟨rfl, .useAs T, ho, Or.inr ⟨by simp [hr], by simp, ?_⟩⟩)
+    intro o' ho' C h1 h2
+    simp only [hr, useSnap] at ho'
+    split at ho'
+    · cases ho'
+    · rename_i hT; simp [presentOk, h1, hT]
+  · rename_i hh ho hr
+    exact Or.inr (Or.inr ⟨rfl, .json, ho, Or.inl ⟨hr, rfl⟩⟩)
+  · rename_i hh ho hr
+    exact Or.inr (Or.inr ⟨rfl, .typeName, ho, Or.inl ⟨hr, rfl⟩⟩)
+  · rename_i hh ho hr
+    exact Or.inr (Or.inr ⟨rfl, .load, ho, Or.inl ⟨hr, rfl⟩⟩)
+  · rename_i T hh ho hr
+    exact Or.inr (Or.inr ⟨rfl, .useAs T, ho, Or.inl ⟨hr, rfl⟩⟩)
+
+
+theorem toEvent_create {r : Rec} {o : Obj} {h : Nat} (ho : r.op = .create o) (hr : r.result = .handle h) :
+    r.toEvent = some ⟨r.thread, .create, h, none, 2 * r.inv, 2 * r.res + 1, .ok, some o.ty, some o.id⟩ := by
+  simp [Rec.toEvent, ho, hr]
+
+theorem toEvent_free {r : Rec} {h : Nat} (ho : r.op = .free h) (hr : r.result = .unit) :
+    r.toEvent = some ⟨r.thread, .free, h, none, 2 * r.inv, 2 * r.res + 1, .ok, none, none⟩ := by
+  simp [Rec.toEvent, ho, hr]
+
+theorem toEvent_get_isSome {r : Rec} {k : GetKind} {h : Nat} {s : Option Obj} (ho : r.op = .get k h)
+    (hr : r.result = useSnap k s) : r.toEvent.isSome = true := by
+  cases k with
+  | useAs T =>
+    cases s with
+    | none => simp [Rec.toEvent, ho, hr, useSnap]
+    | some o => by_cases hT : o.ty = T <;> simp [Rec.toEvent, ho, hr, useSnap, hT]
+  | _ => cases s <;> simp [Rec.toEvent, ho, hr, useSnap]
+
+theorem isGet_op_ne_create {e : Event} (h : e.isGet = true) : e.op ≠ .create := by
+  intro he; simp [Event.isGet, he] at h
+
+theorem isGet_op_ne_free {e : Event} (h : e.isGet = true) : e.op ≠ .free := by
+  intro he; simp [Event.isGet, he] at h
+
+theorem mem_toEvents {hist : List Rec} {e : Event} : e ∈ toEvents hist ↔ ∃ r ∈ hist, r.toEvent = some e := by
+  simp [toEvents, List.mem_filterMap]
+
+theorem toEvents_cons (r : Rec) (hist : List Rec) :
+    toEvents (r :: hist) = match r.toEvent with
+      | none => toEvents hist
+      | some e => e :: toEvents hist := by
+  unfold toEvents; rw [List.filterMap_cons]; cases r.toEvent <;> rfl
+
+theorem createdHandles_cons_handle (r : Rec) (hist : List Rec) (h : Nat) (hr : r.result = .handle h) :
+    createdHandles (r :: hist) = h :: createdHandles hist := by
+  simp [createdHandles, hr]
+
+theorem creates_handles (hist : List Rec)
+    (hc : ∀ r ∈ hist, ∀ h, r.result = .handle h → ∃ o, r.op = .create o) :
+    ((toEvents hist).filter (fun e => e.op == .create)).map (·.handle) = createdHandles hist := by
+  induction hist with
+  | nil => rfl
+  | cons r hist ih =>
+    have ih' := ih (fun r hr => hc r (List.mem_cons_of_mem _ hr))
+    have hcr := hc r List.mem_cons_self
+    rw [toEvents_cons]
+    cases he : r.toEvent with
+    | none =>
+      simp only
+      rw [createdHandles_cons_of_ne, ih']
+      intro x hx
+      obtain ⟨o, ho⟩ := hcr x hx
+      rw [toEvent_create ho hx] at he; cases he
+    | some e =>
+      obtain ⟨_, _, h3⟩ := toEvent_inv he
+      simp only
+      rcases h3 with ⟨hop, o, ho, hres, _⟩ | ⟨hop, ho, hres, _⟩ | ⟨hg, k, ho, _⟩
+      · rw [createdHandles_cons_handle _ _ _ hres]; simp [hop, ih']
+      · rw [createdHandles_cons_of_ne _ _ (by simp [hres])]; simp [hop, ih']
+      · have hne := isGet_op_ne_create hg
+        have : ∀ x, r.result ≠ .handle x := by
+          intro x hx; obtain ⟨o, ho'⟩ := hcr x hx; rw [ho] at ho'; cases ho'
+        rw [createdHandles_cons_of_ne _ _ this]; simp [hne, ih']
+
+
+/-- per-handle facts about the events of a model history, in ticket arithmetic -/
+structure HandleFacts (E : List Event) (C : Event) (h p : Nat) (q : Option Nat) : Prop where
+  get : ∀ g ∈ E, g.isGet = true → g.handle = h →
+    (g.result ≠ .invalid ∧ presentOk C g = true ∧ p < g.res ∧ ∀ Q, q = some Q → g.inv ≤ Q) ∨
+    (g.result = .invalid ∧ (g.inv ≤ p ∨ ∃ Q, q = some Q ∧ Q < g.res))
+  free : ∀ f ∈ E, f.op = .free → f.handle = h → f.inv ≤ p ∨ ∃ Q, q = some Q ∧ Q < f.res
+  q : ∀ Q, q = some Q → p ≤ Q ∧ ∃ f ∈ E, f.op = .free ∧ f.handle = h ∧ f.inv = Q ∧ Q < f.res
+
+theorem handleFacts {c : Config} (a : AllInv c) {rc : Rec} (hrc : rc ∈ c.hist) {o : Obj} {h : Nat}
+    (ho : rc.op = .create o) (hres : rc.result = .handle h) (C : Event)
+    (hty : C.ty = some o.ty) (hobj : C.obj = some o.id) :
+    ∃ q, HandleFacts (toEvents c.hist) C h (2 * rc.lin) q := by
+  obtain ⟨q, w⟩ := a.win.win rc.toLin (a.timing.hist_in_log rc hrc) o h ho hres
+  refine ⟨q.map (2 * ·), ?_, ?_, ?_⟩
+  · intro g hg hget hh
+    obtain ⟨r, hr, hre⟩ := mem_toEvents.mp hg
+    obtain ⟨t1, t2, h3⟩ := toEvent_inv hre
+    have ht := a.timing.hist_times r hr
+    rcases h3 with ⟨hop, _⟩ | ⟨hop, _⟩ | ⟨_, k, hop, hrel⟩
+    · exact absurd hop (isGet_op_ne_create hget)
+    · exact absurd hop (isGet_op_ne_free hget)
+    · rw [hh] at hop
+      rcases w.gets r.toLin (a.timing.hist_in_log r hr) k hop with ⟨w1, w2, w3⟩ | ⟨w1, w2⟩
+      · rcases hrel with ⟨g1, _⟩ | ⟨g1, g2, g3⟩
+        · exfalso; rw [show r.toLin.result = r.result from rfl, g1] at w1
+          exact useSnap_some_ne_invalid k o w1.symm
+        · refine Or.inl ⟨g2, g3 o w1 C hty hobj, ?_, ?_⟩
+          · simp only [Rec.toLin] at w2; omega
+          · intro Q hQ
+            cases q with
+            | none => simp at hQ
+            | some Q' =>
+              simp only [Option.map_some, Option.some.injEq] at hQ
+              have := w3 Q' rfl
+              simp only [Rec.toLin] at this; omega
+      · rcases hrel with ⟨_, g2⟩ | ⟨g1, _, _⟩
+        · refine Or.inr ⟨g2, ?_⟩
+          rcases w2 with w2 | ⟨Q, hQ, w2⟩
+          · left; simp only [Rec.toLin] at w2; omega
+          · right; refine ⟨2 * Q, by simp [hQ], ?_⟩
+            simp only [Rec.toLin] at w2; omega
+        · exact absurd w1 g1
+  · intro f hf hfop hh
+    obtain ⟨r, hr, hre⟩ := mem_toEvents.mp hf
+    obtain ⟨t1, t2, h3⟩ := toEvent_inv hre
+    have ht := a.timing.hist_times r hr
+    rcases h3 with ⟨hop, _⟩ | ⟨_, hop, _⟩ | ⟨hget, _⟩
+    · rw [hfop] at hop; cases hop
+    · rw [hh] at hop
+      rcases w.frees r.toLin (a.timing.hist_in_log r hr) hop with w1 | ⟨Q, hQ, w1⟩
+      · left; simp only [Rec.toLin] at w1; omega
+      · right; refine ⟨2 * Q, by simp [hQ], ?_⟩
+        simp only [Rec.toLin] at w1; omega
+    · exact absurd hfop (isGet_op_ne_free hget)
+  · intro Q hQ
+    cases q with
+    | none => simp at hQ
+    | some Q' =>
+      simp only [Option.map_some, Option.some.injEq] at hQ
+      obtain ⟨q1, f, hf1, hf2, hf3⟩ := w.qfree Q' rfl
+      have hrec := a.shape.log_free f hf1 h hf2
+      refine ⟨by simp only [Rec.toLin] at q1; omega, _, mem_toEvents.mpr ⟨_, hrec, toEvent_free rfl rfl⟩, rfl, rfl, ?_, ?_⟩
+      · simp only; omega
+      · simp only; omega
+
+theorem checkHandle_of_facts {E : List Event} {C : Event} {q : Option Nat}
+    (hC : C.res = C.res - 1 + 1) (hCi : C.inv ≤ C.res - 1)
+    (hf : HandleFacts E C C.handle (C.res - 1) q) :
+    checkHandle C E = true := by
+  unfold checkHandle
+  simp only [List.any_cons, Bool.or_eq_true]
+  left
+  cases q with
+  | none =>
+    left
+    simp only [feasible, Bool.and_eq_true, decide_eq_true_eq, List.all_eq_true, List.mem_filter,
+      Bool.or_eq_true, beq_iff_eq, bne_iff_ne, ne_eq, and_imp]
+    refine ⟨⟨⟨hCi, by omega⟩, ?_⟩, ?_, ?_⟩
+    · intro g hg hget hh
+      rcases hf.get g hg hget hh with ⟨g1, g2, g3, _⟩ | ⟨g1, _⟩
+      · exact Or.inr ⟨g2, g3⟩
+      · exact Or.inl g1
+    · intro f hfm hop hh
+      rcases hf.free f hfm hop hh with h1 | ⟨Q, hQ, _⟩
+      · exact h1
+      · cases hQ
+    · intro g hg hget hh
+      rcases hf.get g hg hget hh with ⟨g1, _⟩ | ⟨g1, g2 | ⟨Q, hQ, _⟩⟩
+      · exact Or.inl g1
+      · exact Or.inr g2
+      · cases hQ
+  | some Q =>
+    right
+    obtain ⟨q1, f0, hf0, hf1, hf2, hf3, hf4⟩ := hf.q Q rfl
+    simp only [List.any_eq_true, List.mem_map, List.mem_cons, List.mem_append, List.mem_filter,
+      Bool.and_eq_true, beq_iff_eq]
+    refine ⟨Q, ⟨f0, Or.inl (Or.inr ⟨hf0, hf1, hf2⟩), hf3⟩, ?_⟩
+    simp only [feasible, Bool.and_eq_true, decide_eq_true_eq, List.all_eq_true, List.any_eq_true,
+      List.mem_filter, Bool.or_eq_true, beq_iff_eq, and_imp]
+    refine ⟨⟨⟨hCi, by omega⟩, ?_⟩, ⟨⟨q1, f0, ⟨hf0, hf1, hf2⟩, by omega, hf4⟩, ?_⟩, ?_⟩
+    · intro g hg hget hh
+      rcases hf.get g hg hget hh with ⟨g1, g2, g3, _⟩ | ⟨g1, _⟩
+      · exact Or.inr ⟨g2, g3⟩
+      · exact Or.inl g1
+    · intro f hfm hop hh
+      rcases hf.free f hfm hop hh with h1 | ⟨Q', hQ, h2⟩
+      · exact Or.inl h1
+      · cases hQ; exact Or.inr h2
+    · intro g hg hget hh
+      rcases hf.get g hg hget hh with ⟨g1, _, _, g4⟩ | ⟨g1, g2 | ⟨Q', hQ, g2⟩⟩
+      · rw [if_neg (by simpa using g1)]; simpa using g4 Q rfl
+      · rw [if_pos (by simpa using g1)]; simp [g2]
+      · cases hQ; rw [if_pos (by simpa using g1)]; simp [g2]
+
+
+theorem hist_handle_is_create {c : Config} (a : AllInv c) {r : Rec} (hr : r ∈ c.hist) {h : Nat}
+    (hres : r.result = .handle h) : ∃ o, r.op = .create o :=
+  a.timing.log_handle r.toLin (a.timing.hist_in_log r hr) h hres
+
+/-- a create event of a model history, with its record -/
+theorem create_event_inv {c : Config} (a : AllInv c) {e : Event} (he : e ∈ toEvents c.hist)
+    (hop : e.op = .create) :
+    ∃ r ∈ c.hist, ∃ o, r.op = .create o ∧ r.result = .handle e.handle ∧ e.ty = some o.ty ∧
+      e.obj = some o.id ∧ e.result = .ok ∧ e.inv = 2 * r.inv ∧ e.res = 2 * r.res + 1 ∧ r.lin = r.res ∧
+      r.inv ≤ r.res := by
+  obtain ⟨r, hr, hre⟩ := mem_toEvents.mp he
+  obtain ⟨t1, t2, h3⟩ := toEvent_inv hre
+  have ht := a.timing.hist_times r hr
+  rcases h3 with ⟨_, o, ho, h1, h2, h3, h4⟩ | ⟨hop', _⟩ | ⟨hget, _⟩
+  · exact ⟨r, hr, o, ho, h1, h2, h3, h4, t1, t2, (a.shape.create r hr o ho).1, by omega⟩
+  · rw [hop] at hop'; cases hop'
+  · exact absurd hop (isGet_op_ne_create hget)
+
+theorem checkHistory_sound {c : Config} (a : AllInv c) : checkHistory (toEvents c.hist) = true := by
+  unfold checkHistory
+  simp only [Bool.and_eq_true, List.all_eq_true, List.mem_filter, beq_iff_eq, decide_eq_true_eq,
+    and_imp, Bool.or_eq_true, Bool.not_eq_true', decide_eq_false_iff_not, bne_iff_ne, ne_eq,
+    List.any_eq_true]
+  refine ⟨⟨⟨⟨⟨⟨?_, ?_⟩, ?_⟩, ?_⟩, ?_⟩, ?_⟩, ?_⟩
+  · -- tickets
+    intro e he
+    obtain ⟨r, hr, hre⟩ := mem_toEvents.mp he
+    obtain ⟨t1, t2, _⟩ := toEvent_inv hre
+    have := a.timing.hist_times r hr; omega
+  · -- creates are well-formed
+    intro e he hop
+    obtain ⟨r, hr, o, ho, h1, h2, h3, h4, _⟩ := create_event_inv a he hop
+    have := (a.inv.ch_le _ (mem_createdHandles hr h1)).2
+    simp [h2, h3, h4, this]
+  · -- no handle twice
+    rw [creates_handles c.hist (fun r hr h hres => hist_handle_is_create a hr hres)]
+    exact a.inv.ch_nodup
+  · -- handle order
+    intro ea hea hopa eb heb hopb
+    obtain ⟨ra, hra, oa, _, ha1, _, _, _, _, ta2, _, _⟩ := create_event_inv a hea hopa
+    obtain ⟨rb, hrb, ob, _, hb1, _, _, _, tb1, _, _, _⟩ := create_event_inv a heb hopb
+    by_cases hlt : ea.res < eb.inv
+    · right; exact a.ord.hist ra hra rb hrb _ _ ha1 hb1 (by omega)
+    · left; exact hlt
+  · -- free never fails
+    intro e he
+    obtain ⟨r, hr, hre⟩ := mem_toEvents.mp he
+    obtain ⟨_, _, h3⟩ := toEvent_inv hre
+    rcases h3 with ⟨hop, _⟩ | ⟨_, _, _, h4⟩ | ⟨hget, _⟩
+    · left; rw [hop]; simp
+    · right; exact h4
+    · left; exact isGet_op_ne_free hget
+  · -- handles never created
+    intro e he
+    by_cases hget : e.isGet = true
+    · by_cases hcr : e.handle ∈ createdHandles c.hist
+      · left; right
+        simp only [createdHandles, List.mem_filterMap] at hcr
+        obtain ⟨rc, hrc, hm⟩ := hcr
+        split at hm
+        · rename_i x hx
+          simp only [Option.some.injEq] at hm; subst hm
+          obtain ⟨o, ho⟩ := hist_handle_is_create a hrc hx
+          exact ⟨_, ⟨mem_toEvents.mpr ⟨rc, hrc, toEvent_create ho hx⟩, rfl⟩, rfl⟩
+        · cases hm
+      · right
+        obtain ⟨r, hr, hre⟩ := mem_toEvents.mp he
+        obtain ⟨_, _, h3⟩ := toEvent_inv hre
+        rcases h3 with ⟨hop, _⟩ | ⟨hop, _⟩ | ⟨_, k, hop, hrel⟩
+        · exact absurd hop (isGet_op_ne_create hget)
+        · exact absurd hop (isGet_op_ne_free hget)
+        · have := (a.win.never e.handle hcr).2 r.toLin (a.timing.hist_in_log r hr) k hop
+          rcases hrel with ⟨_, g2⟩ | ⟨g1, _⟩
+          · exact g2
+          · exact absurd this g1
+    · left; left; simpa using hget
+  · -- per handle
+    intro C hC hop
+    obtain ⟨r, hr, o, ho, h1, h2, h3, _, t1, t2, hl, hle⟩ := create_event_inv a hC hop
+    obtain ⟨q, hf⟩ := handleFacts a hr ho h1 C h2 h3
+    have hp : C.res - 1 = 2 * r.lin := by omega
+    exact checkHandle_of_facts (by omega) (by omega) (hp ▸ hf)
+
+
+/-- a log entry belongs to a completed operation or to the in-flight `get` of its thread -/
+def Accounted (threads : List Thread) (hist : List Rec) (l : Lin) : Prop :=
+  (∃ r ∈ hist, r.toLin = l) ∨
+  (∃ th k h s, threads[l.thread]? = some th ∧ th.pend = .snap k h s l.lin ∧
+    l = ⟨l.thread, .get k h, l.lin, useSnap k s⟩)
+
+/-- nothing in the log is invented -/
+def LogInv (c : Config) : Prop := ∀ l ∈ c.linLog, Accounted c.threads c.hist l
+
+theorem logInv_init (progs : List (List Op)) : LogInv (initCfg progs) := by
+  simp [LogInv, initCfg]
+
+theorem logInv_step {t : Nat} {c c' : Config} (hs : StepRel t c c') (i : LogInv c) : LogInv c' := by
+  -- an entry accounted for stays so when thread `t` steps from a non-`snap` pending state
+  have keep : ∀ (th : Thread) (th' : Thread) (hist' : List Rec), c.threads[t]? = some th →
+      (∀ k h s j, th.pend ≠ .snap k h s j) → (∀ r ∈ c.hist, r ∈ hist') → ∀ l, Accounted c.threads c.hist l →
+      Accounted (c.threads.set t th') hist' l := by
+    intro th th' hist' hth hnp hsub l hl
+    rcases hl with ⟨r, hr, e⟩ | ⟨th0, k, h, s, h1, h2, h3⟩
+    · exact Or.inl ⟨r, hsub r hr, e⟩
+    · right
+      by_cases ht : l.thread = t
+      · rw [ht, hth] at h1; cases h1; exact absurd h2 (hnp k h s l.lin)
+      · exact ⟨th0, k, h, s, by simp only [get_set hth, ht, if_false]; exact h1, h2, h3⟩
+  cases hs with
+  | skip hn => exact i
+  | fin th hth hp hprog =>
+    intro l hl; exact keep th th c.hist hth (by simp [hp]) (fun _ h => h) l (i l hl)
+  | alloc th o rest hth hp hprog =>
+    intro l hl; exact keep th _ c.hist hth (by simp [hp]) (fun _ h => h) l (i l hl)
+  | insert th o h j hth hp =>
+    intro l hl
+    rcases List.mem_cons.mp hl with rfl | hl
+    · exact Or.inl ⟨_, List.mem_cons_self, rfl⟩
+    · exact keep th _ _ hth (by simp [hp]) (fun _ h => List.mem_cons_of_mem _ h) l (i l hl)
+  | snap th k h rest hth hp hprog =>
+    intro l hl
+    rcases List.mem_cons.mp hl with rfl | hl
+    · right; exact ⟨⟨rest, .snap k h (mapGet c.map h) c.now⟩, k, h, mapGet c.map h, by simp [get_set hth], rfl, rfl⟩
+    · exact keep th _ c.hist hth (by simp [hp]) (fun _ h => h) l (i l hl)
+  | free th h rest hth hp hprog =>
+    intro l hl
+    rcases List.mem_cons.mp hl with rfl | hl
+    · exact Or.inl ⟨_, List.mem_cons_self, rfl⟩
+    · exact keep th _ _ hth (by simp [hp]) (fun _ h => List.mem_cons_of_mem _ h) l (i l hl)
+  | use th k h s j hth hp =>
+    intro l hl
+    rcases i l hl with ⟨r, hr, e⟩ | ⟨th0, k0, h0, s0, h1, h2, h3⟩
+    · exact Or.inl ⟨r, List.mem_cons_of_mem _ hr, e⟩
+    · by_cases ht : l.thread = t
+      · left
+        rw [ht, hth] at h1; cases h1
+        rw [hp] at h2
+        simp only [Pend.snap.injEq] at h2
+        obtain ⟨rfl, rfl, rfl, rfl⟩ := h2
+        refine ⟨_, List.mem_cons_self, ?_⟩
+        rw [h3, ht]; rfl
+      · right
+        exact ⟨th0, k0, h0, s0, by simp only [get_set hth, ht, if_false]; exact h1, h2, h3⟩
+
+theorem logInv_run (progs : List (List Op)) (s : Sched) : LogInv (run s (initCfg progs)) :=
+  run_induction (P := LogInv) (fun _ _ _ hs i => logInv_step hs i) s _ (logInv_init progs)
+
+theorem useSnap_ok (k : GetKind) (o : Obj) (hk : ∀ T, k ≠ .useAs T) : useSnap k (some o) = .ok o := by
+  cases k <;> simp [useSnap]
+  exact absurd rfl (hk _)
+
+theorem filterMap_length_of_isSome {α β : Type} (f : α → Option β) (l : List α)
+    (h : ∀ a ∈ l, (f a).isSome = true) : (l.filterMap f).length = l.length := by
+  induction l with
+  | nil => rfl
+  | cons a l ih =>
+    have ha := h a List.mem_cons_self
+    rw [List.filterMap_cons]
+    cases hf : f a with
+    | none => rw [hf] at ha; cases ha
+    | some b => simp [ih (fun a ha => h a (List.mem_cons_of_mem _ ha))]
+
+theorem toEvent_isSome {c : Config} (a : AllInv c) {r : Rec} (hr : r ∈ c.hist) : r.toEvent.isSome = true := by
+  cases hop : r.op with
+  | create o =>
+    obtain ⟨_, h, hres⟩ := a.shape.create r hr o hop
+    rw [toEvent_create hop hres]; rfl
+  | get k h =>
+    obtain ⟨_, s, hres⟩ := a.shape.get r hr k h hop
+    exact toEvent_get_isSome hop hres
+  | free h =>
+    obtain ⟨_, _, hres⟩ := a.shape.free r hr h hop
+    rw [toEvent_free hop hres]; rfl
+
 end AnonModel.Store
